@@ -68,6 +68,29 @@ def print_table_rows(secs, eol=b" \n", hdr_eol=b"\n", eols=None):
     return bytes(out)
 
 
+ISO_WHITE = b"\x00\t\n\x0c\r "       # ISO 32000-1 Table 1
+
+
+def gap(rng, nonempty):
+    n = rng.choice([1, 1, 1, 2, 3, 6]) if nonempty else rng.choice([0, 0, 0, 1, 2, 5])
+    return bytes(rng.choice(ISO_WHITE) for _ in range(n))
+
+
+def print_table_layout(rng, secs):
+    """counterpart of XRef/Spec.v print_table_spec without the two keywords: white-space after `xref`, the
+    subsections (white-space before the header, between its numbers, after it; a 2-byte end-of-line form per
+    row), white-space before `trailer`"""
+    out = bytearray(gap(rng, True))
+    for first, ents in secs:
+        out += gap(rng, False) + b"%d" % first + gap(rng, True) + b"%d" % len(ents) + gap(rng, True)
+        for e in ents:
+            if e[0] == "c":
+                raise ValueError("a classic table cannot describe a compressed object")
+            out += b"%010d %05d %s" % (e[1], e[2], e[0].encode()) + rng.choice(EOLS)
+    out += gap(rng, False)
+    return bytes(out)
+
+
 TYPE = {"f": 0, "n": 1, "c": 2}
 
 
